@@ -23,6 +23,10 @@ type Conn struct {
 	handler fasthttp.RequestHandler
 	N       int
 	MaxBody int
+	Opened  int // connections opened so far (real connection loop only)
+	net     NetOptions
+	ns      *netState
+	remote  net.Addr
 }
 
 // Resp is what came back on the wire.
@@ -32,6 +36,8 @@ type Resp struct {
 	Body    []byte
 	Raw     []byte
 	ReadErr error // request could not be parsed (went to the server error handler)
+	// Unsolicited: bytes the server had sent although no request was outstanding (real connection loop only)
+	Unsolicited int
 }
 
 func (r *Resp) Get(name string) string {
@@ -65,11 +71,16 @@ func NewConn(app *fiber.App, remote string) *Conn {
 	addr := &net.TCPAddr{IP: net.ParseIP(remote), Port: 40000}
 	var empty fasthttp.Request
 	c.Ctx.Init(&empty, addr, nil)
+	c.net, c.remote = netOpt, addr
 	return c
 }
 
 // Do serves one request given as raw bytes.
 func (c *Conn) Do(raw []byte) *Resp {
+	if c.net.Enabled {
+		c.N++
+		return c.netDo(raw)
+	}
 	ctx := c.Ctx
 	c.N++
 	ctx.ResetUserValues()
